@@ -1,3 +1,5 @@
+import re
+
 ENC = 'pdf/src/enc.rs'
 STM = 'pdf/src/object/stream.rs'
 FILE = 'pdf/src/file.rs'
@@ -5,6 +7,7 @@ O = 'pdf/src/object/mod.rs'
 PRIM = 'pdf/src/primitive.rs'
 PROPS = ['C05', 'C01']
 IMPL_STORAGE = r'^impl<B, OC, SC, L> Storage<B, OC, SC, L> where'
+IMPL_RES = r"^impl<'a, B, OC, SC, L> Resolve for StorageResolver<'a, B, OC, SC, L> where"
 
 
 def lits(*keys):
@@ -78,6 +81,85 @@ CHAIN_INV = [
     ('rest_of_chain_in_order', 'chain_decode(filters@.subrange(__k as int, filters@.len() as int), data@) == chain_decode(filters@, plain)'),
 ]
 STEP = 'proof { if __k < filters@.len() { lemma_chain_step(filters@, __k as int, data@); } } '
+
+
+# ---- Stream::data, in-memory arm, read by SHAPE (hardening round 3) ---------------------------------------------------------------
+# The arm is "an accumulator that starts as the stream's bytes and is replaced by decode(<bytes>, filter) once per filter". ONE
+# invariant template (`rest_of_chain_in_order`: what is left of the chain applied to the ACCUMULATOR is the whole chain applied to
+# the stored bytes) describes every such loop; what differs between spellings is read off the tree under verification:
+#   * the accumulator's name (the variable assigned `t!(decode(..))` in the loop) and representation: a `Cow<[u8]>` (pinned text;
+#     modelled by the Vec of its bytes, `.into()` on the stage result dropped) or an `Arc<[u8]>` started with `<bytes>.clone()`
+#     (stage result `.into()` -> R7 `hoist_into_arc`, `decode(<&Arc>, ..)` deref coercion -> R7 `hoist_arc_slice`)
+#   * the list expression of the loop head (`filters` after `let filters = &self.info.filters;`, `&self.info.filters`, `.iter()`)
+#   * the loop variable's name
+# WHAT each stage decodes is NOT part of the shape: the first argument of `decode` stays verbatim under proof, so a stage that reads
+# the wrong buffer fails `rest_of_chain_in_order`.
+def _data_shape():
+    from vlib import assemble
+    try:
+        _raw, _sig, body = assemble.locate({'kind': 'fn', 'file': STM, 'container': r'^impl<I: Object> Stream<I>$', 'name': 'data'})
+        body = re.sub(r'\s+', ' ', assemble.strip_comments(body))
+    except Exception:
+        return None                                    # anchor lost: reported by the framework when it extracts the item itself
+    acc = re.search(r'\b(\w+) = t!\(decode\(', body)
+    head = re.search(r'for (\w+) in (filters|&self\.info\.filters|self\.info\.filters\.iter\(\)|filters\.iter\(\)) \{', body)
+    if not acc or not head:
+        return None
+    acc = acc.group(1)
+    return {'acc': acc, 'var': head.group(1),
+            'cow': bool(re.search(r'let mut %s ?: ?Cow<\[u8\]>' % acc, body)),
+            'arc': bool(re.search(r'let mut %s(?: ?: ?Arc<\[u8\]>)? = (?:\w+\.clone\(\)|Arc::clone\(&?\w+\));' % acc, body)),
+            'fs': 'filters@' if re.search(r'let filters = &self\.info\.filters;', body) else 'self.info.filters@'}
+
+
+DSH = _data_shape()
+if DSH and DSH['cow'] and DSH['acc'] == 'data' and DSH['var'] == 'filter' and DSH['fs'] == 'filters@':
+    # the pinned spelling: text kept byte-identical to what has verified since round 1
+    DATA_LOOPS = {1: {'invariant': CHAIN_INV}}
+    DATA_RW = [
+        {'rule': 'R2', 'find': 'use std::borrow::Cow;', 'replace': ''},
+        # R7: the Cow<[u8]> (borrowed from the Arc at first, owned after the first stage) is modelled by the Vec of its bytes
+        {'rule': 'R7', 'find': 'let mut data: Cow<[u8]> = (&**data).into();', 'replace': 'let mut data: Vec<u8> = hoist_arc_to_vec(data);'},
+        {'rule': 'R7', 'find': 'data = t!(decode(&data, filter), filter).into();', 'replace': 'data = t!(decode(&data, filter), filter);'},
+        {'rule': 'R7', 'find': 'Ok(data.into())', 'replace': 'Ok(hoist_into_arc(data))'},
+    ] + FILTER_LOOP + [
+        {'rule': 'R1', 'find': 'let __it =', 'replace': 'let ghost plain = data@; proof { lemma_chain_whole(filters@); } let __it ='},
+        {'rule': 'R1', 'find': 'let filter = __it[__k];', 'replace': 'let filter = __it[__k]; ' + STEP},
+    ]
+elif DSH and (DSH['cow'] or DSH['arc']):
+    _a, _v, _fs = DSH['acc'], DSH['var'], DSH['fs']
+    _view = ('%s@' if DSH['cow'] else '(*%s)@') % _a
+    DATA_LOOPS = {1: {'invariant': [
+        '__it@.len() == %s.len()' % _fs,
+        ('rest_of_chain_in_order', 'chain_decode(%s.subrange(__k as int, %s.len() as int), %s) == chain_decode(%s, plain)' % (_fs, _fs, _view, _fs))]}}
+    _step = 'proof { if __k < %s.len() { lemma_chain_step(%s, __k as int, %s); } } ' % (_fs, _fs, _view)
+    DATA_RW = [{'rule': 'R2', 'regex': r'use std::borrow::Cow;', 'replace': '', 'count': '*'}]
+    if DSH['cow']:
+        DATA_RW += [
+            {'rule': 'R7', 'regex': r'let mut %s\s*:\s*Cow<\[u8\]>\s*=\s*\(&\*\*(\w+)\)\.into\(\);' % _a, 'replace': r'let mut %s: Vec<u8> = hoist_arc_to_vec(\1);' % _a},
+            {'rule': 'R7', 'regex': r'\b%s = (t!\(decode\(.*?\), %s\))\.into\(\);' % (_a, _v), 'replace': r'%s = \1;' % _a},
+            {'rule': 'R7', 'regex': r'Ok\(%s\.into\(\)\)' % _a, 'replace': 'Ok(hoist_into_arc(%s))' % _a},
+        ]
+    else:
+        DATA_RW += [
+            # R7: Vec<u8> -> Arc<[u8]> on the stage result; `&Arc<[u8]> -> &[u8]` deref coercion of decode's first argument spelled out
+            # (the ARGUMENT itself stays verbatim: which buffer a stage reads is under proof)
+            {'rule': 'R7', 'regex': r'\b%s = (t!\(decode\(.*?\), %s\))\.into\(\);' % (_a, _v), 'replace': r'%s = hoist_into_arc(\1);' % _a},
+            {'rule': 'R7', 'regex': r'\bdecode\(\s*(&?\s*\w+)\s*,', 'replace': r'decode(hoist_arc_slice(\1),', 'count': '*'},
+        ]
+    DATA_RW += [
+        # R6: index loop over the collected iterator, any of the four spellings of "the stream's filters, front to back"
+        {'rule': 'R6', 'regex': r'for %s in (?:filters|filters\.iter\(\)) \{' % _v, 'count': '*',
+         'replace': 'let __it = hoist_iter(filters); for __k in 0..__it.len() { let %s = __it[__k];' % _v},
+        {'rule': 'R6', 'regex': r'for %s in (?:&self\.info\.filters|self\.info\.filters\.iter\(\)) \{' % _v, 'count': '*',
+         'replace': 'let __it = hoist_iter(&self.info.filters); for __k in 0..__it.len() { let %s = __it[__k];' % _v},
+        {'rule': 'R1', 'find': 'let __it =', 'replace': 'let ghost plain = %s; proof { lemma_chain_whole(%s); } let __it =' % (_view, _fs)},
+        {'rule': 'R1', 'find': 'let %s = __it[__k];' % _v, 'replace': 'let %s = __it[__k]; ' % _v + _step},
+    ]
+else:
+    # no accumulator loop recognised: nothing is annotated; the verifier reads the body as it is (normally UNDECIDED, never an alarm)
+    DATA_LOOPS = {}
+    DATA_RW = [{'rule': 'R2', 'regex': r'use std::borrow::Cow;', 'replace': '', 'count': '*'}]
 
 UNIT = {
  'name': 'filterchain',
@@ -165,8 +247,9 @@ UNIT = {
   'decode': {'kind': 'fn', 'file': ENC, 'container': None, 'name': 'decode', 'props': PROPS,
      'ensures': [('dispatch_table', 'match decode_spec(*filter, data@) { Some(v) => r matches Ok(o) && o@ == v, None => r is Err }')]},
 
-  # ---- the decoding loop on file data
-  'Storage::decode': {'kind': 'fn', 'file': FILE, 'container': IMPL_STORAGE, 'name': 'decode', 'props': PROPS,
+  # ---- the decoding loop on file data (C06: "every stream read through the interface equals the original plaintext" -- the
+  # bytes at `range` go through the document's decoder, under the stream's own id, BEFORE any filter)
+  'Storage::decode': {'kind': 'fn', 'file': FILE, 'container': IMPL_STORAGE, 'name': 'decode', 'props': PROPS + ['C06'],
      'attrs': ['#[verifier::loop_isolation(false)]'],
      'ensures': [
         # C05 "for every chain of such filters ... decoding ... returns the original bytes": the chain is applied in array
@@ -185,6 +268,27 @@ UNIT = {
         {'rule': 'R1', 'find': 'let filter = __it[__k];', 'replace': 'let filter = __it[__k]; ' + STEP},
      ]},
 
+  # ---- the raw-data path (PdfStream::raw_data, DeepClone / Importer): Resolve::stream_data of the document's resolver.
+  # "Raw" = no FILTER applied; the bytes are still the stream's stored plaintext, i.e. decrypted (C06, 7.6.1)
+  'struct StorageResolver': {'kind': 'decl', 'file': FILE, 'header': r"^struct StorageResolver<'a, B, OC, SC, L>$",
+     'rewrites': [{'rule': 'R2', 'find': 'struct StorageResolver', 'replace': 'pub struct StorageResolver'},
+                  {'rule': 'R2', 'find': 'storage:', 'replace': 'pub storage:'},
+                  # R2: the recursion-guard chain (units/guard) is not mentioned by stream_data
+                  {'rule': 'R2', 'find': 'chain: Mutex<Vec<PlainRef>>,', 'replace': ''}]},
+  'StorageResolver::stream_data': {'kind': 'fn', 'file': FILE, 'container': IMPL_RES, 'name': 'stream_data', 'props': ['C06', 'C05', 'C01'],
+     'ensures': [
+        ('raw_data_is_decrypted_stored_bytes', 'match self.storage.stored_plain(id, range) { None => r is Err,'
+            ' Some(plain) => r matches Ok(o) && (*o)@ == plain }'),
+     ],
+     'rewrites': [
+        # R2: a parameter spelled `_id` is still the parameter `id` of the trait method
+        {'where': 'sig', 'rule': 'R2', 'regex': r'\b_(id|range): ', 'replace': r'\1: ', 'count': '*'},
+        # R7: std conversions `<&[u8]>::into() -> Arc<[u8]>` on a `?`-unwrapped read, `&[]` (empty filter list)
+        {'rule': 'R7', 'regex': r'(\w[\w.]*\([^()]*\)\?)\.into\(\)', 'replace': r'hoist_slice_into_arc(\1)', 'count': '*'},
+        {'rule': 'R7', 'regex': r'Ok\((\w+)\.into\(\)\)', 'replace': r'Ok(hoist_slice_into_arc(\1))', 'count': '*'},
+        {'rule': 'R7', 'regex': r'&\[\]', 'replace': 'hoist_no_filters()', 'count': '*'},
+     ]},
+
   # ---- Stream::data: the public entry point
   'Stream::data': {'kind': 'fn', 'file': STM, 'container': r'^impl<I: Object> Stream<I>$', 'name': 'data', 'props': PROPS,
      'attrs': ['#[verifier::loop_isolation(false)]'],
@@ -197,18 +301,10 @@ UNIT = {
         ('generated_data_chain_in_order', 'self.inner_data matches StreamData::Generated(d) ==> (match chain_decode(self.info.filters@, (*d)@)'
             ' { Some(out) => r matches Ok(o) && (*o)@ == out, None => r is Err })'),
      ],
-     'loops': {1: {'invariant': CHAIN_INV}},
-     'rewrites': [
-        {'rule': 'R2', 'find': 'use std::borrow::Cow;', 'replace': ''},
-        # R7: the Cow<[u8]> (borrowed from the Arc at first, owned after the first stage) is modelled by the Vec of its bytes
-        {'rule': 'R7', 'find': 'let mut data: Cow<[u8]> = (&**data).into();', 'replace': 'let mut data: Vec<u8> = hoist_arc_to_vec(data);'},
-        {'rule': 'R7', 'find': 'data = t!(decode(&data, filter), filter).into();', 'replace': 'data = t!(decode(&data, filter), filter);'},
-        {'rule': 'R7', 'find': 'Ok(data.into())', 'replace': 'Ok(hoist_into_arc(data))'},
+     'loops': DATA_LOOPS,
+     'rewrites': DATA_RW + [
         # R7: Range<usize>::clone has no vstd specification
         {'rule': 'R7', 'find': 'file_range.clone()', 'replace': 'hoist_range_clone(file_range)'},
-     ] + FILTER_LOOP + [
-        {'rule': 'R1', 'find': 'let __it =', 'replace': 'let ghost plain = data@; proof { lemma_chain_whole(filters@); } let __it ='},
-        {'rule': 'R1', 'find': 'let filter = __it[__k];', 'replace': 'let filter = __it[__k]; ' + STEP},
      ]},
  },
 }
